@@ -208,9 +208,10 @@ class AWorld:
                 if not ev.is_set() and ev._waiters:
                     m.append((f"release:{name}", ev.set, 1))
         timers = loop.live_timers()
-        if timers and (self.timer_choice or not m or (not ready and all(x[0].startswith("arrive") for x in m))):
-            if deliver_ok or not m:
-                m.append(("timer", self._fire_timer, 1))
+        if timers and not ready:
+            # virtual time advances only when nothing is runnable (discrete-event semantics): a deadline is never
+            # observed later than it fires because of a backlog that a real loop would have run in microseconds
+            m.append(("timer", self._fire_timer, 1))
         if self.cancels > 0:
             for c in self.callers:
                 if c["cancellable"] and c["task"] is not None and not c["task"].done() and c["cancel_delivered"] is None:
